@@ -14,9 +14,10 @@ import time
 from harness.common import extract
 from harness.common.extract import NotRecognised
 from harness.common.shrink import ddmin
+from harness.props import c10_preempt
 
 PROP = "C10"
-DRIVER_MODULES = ["PsutilModel.Model.C10Gen", "PsutilModel.Model.C10Front", "PsutilModel.Model.C10Conc",
+DRIVER_MODULES = ["PsutilModel.Model.C10Gen", "PsutilModel.Model.C10Front", "PsutilModel.Model.C10Conc", "PsutilModel.Model.C10Lock",
                   "PsutilModel.Model.C10Dict", "PsutilModel.Model.C10Plat", "PsutilModel.Spec.C10",
                   "PsutilModel.Spec.C10Out", "PsutilModel.Spec.C10Plat"]
 FINDING_FORMS = "C10-forms-share-cache"
@@ -24,10 +25,11 @@ FINDING_SAMPLE = "C10-sample-outside-lock"
 NEEDS_EXT = True
 TRUSTED = [
     "C10 model: two levels — the three dicts of _WrapNumbers as they are (association lists in insertion order, defaultdict reads, KeyError/AssertionError/IndexError branches; cache_info() = their value at the time of the call, the aliasing of the returned dicts is not modelled) and, proved equal to it on every uniform-width history (C10_concrete_refines), the abstract state with reminders as a total function (0 = absent); the kernel listing (device, whole disk?, counters) is the input (C09 covers how it is parsed)",
+    "C10 pre-emption explorer (c10_preempt.py): scheduling points are line events of the snapshot's code objects, the creation / acquisition / release of locks created by psutil code, and (search / thorough) the bytecodes of psutil/__init__.py; a thread switch inside one bytecode or inside C code is not explored; the import-time state that is restored is what is reachable in one step from the package's module globals",
     "C10 concurrency: bodies of run()/cache_clear() are modelled as load + store under `_wn.lock`; the raw sample is an explicit `sample` action, outside every lock or (fact sampleUnderLock) inside the front ends' sampling lock, whose acquire/release are merged with the sample and with the release of `_wn.lock` (adds behaviours only); `Sys.samples` is a ghost record of the order of the platform calls",
 ]
 MANIFEST = {
-    "level_text": "Machine-checked Lean 4 proof that the model of the public front ends (per-device and system-wide form, Linux perdisk filter, cache_clear of one or two names) + _WrapNumbers.run/cache_clear refines a history-defined specification for EVERY history (C10_refines, C10_front_refines: any number of wraps, devices appearing/vanishing/reappearing, empty snapshots, cache_clear anywhere, alternating nowrap, both functions and both forms interleaved), that the system-wide form is the field-wise sum of the adjusted per-device tuples (C10_total_is_sum, C10_total_field) and never decreases while no device vanishes (C10_total_monotone; proved counterexample C10_total_drops_when_device_vanishes for the unrestricted statement), with corollaries C10_monotone, C10_value_formula, C10_reappear_fresh, C10_cache_clear_forgets, C10_nowrap_false_raw, C10_names_independent, and that every interleaving of any number of threads equals the serial execution in lock-acquisition order (C10_serialisable, C10_concurrent_refines; counterexample C10_unlocked_not_serialisable; finding C10-sample-outside-lock: with the raw sample taken outside every lock the calls need not go through _wn.lock in the order they read the kernel — counterexample C10_lock_order_is_not_sampling_order, 100/105/110 reported as 105/205/215, forced on two real threads; the full concurrent statement C10_concurrent_Full — lock order of the calls = sampling order, each nowrap=True call returns `expected` over exactly the snapshots sampled before its own — is proved for every configuration that samples under the front ends' lock (C10_concurrent_full_strength, instantiated as C10_concurrent_full_strength_fixed for the current source with fixes/C10-sample-under-lock; obligation cfg_sample_under_lock to be switched on when the fix has landed). The three dicts of _WrapNumbers are modelled as they are in the code and proved to refine the abstract model after every history (C10_concrete_refines: same return values, no KeyError/AssertionError), with the invariant reminder_keys = support of reminders stated separately (C10_reminder_keys_support; what-if counterexample C10_reminder_keys_overwrite_counterexample for a set that is assigned instead of added to) and the value of cache_info() characterised from the history alone (C10_cache_info_reflects). Proved counterexamples for the pre-fix front end (C10_reappear_needs_empty_feed) and for the two forms of disk_io_counters sharing one cache name on Linux (C10_forms_share_history_counterexample, kept for the shared-name configuration sharedCfg: the defect was fixed in /repo by a52899b); for the repaired front end the full statement is proved (C10_present_monotone: after any history, any listings, any number of system-wide calls in between, a disk that stays listed never goes backwards between two perdisk=True calls; instantiated as C10_present_monotone_cfg through the obligation cfg_forms_good). The model is tied to the code by 14 translator facts (empty-snapshot handling, cache names per form, names cleared, wrap comparison, Linux perdisk filter, run/cache_clear/cache_info under the lock, reminder_keys only ever added to, raw sample + wrap_numbers under one front-end lock) feeding cfg_good / cfg_good_conc / cfg_forms_good / cfg_good_dict, and by a differential run of the real front-end functions against model and specification on generated and exhaustively enumerated histories (return values after every step, cache_info() against the concrete-dict model and against the history-defined specification), including 2-3 real threads whose observed schedule is replayed through the Lean lock model.",
+    "level_text": "Machine-checked Lean 4 proof that the model of the public front ends (per-device and system-wide form, Linux perdisk filter, cache_clear of one or two names) + _WrapNumbers.run/cache_clear refines a history-defined specification for EVERY history (C10_refines, C10_front_refines: any number of wraps, devices appearing/vanishing/reappearing, empty snapshots, cache_clear anywhere, alternating nowrap, both functions and both forms interleaved), that the system-wide form is the field-wise sum of the adjusted per-device tuples (C10_total_is_sum, C10_total_field) and never decreases while no device vanishes (C10_total_monotone; proved counterexample C10_total_drops_when_device_vanishes for the unrestricted statement), with corollaries C10_monotone, C10_value_formula, C10_reappear_fresh, C10_cache_clear_forgets, C10_nowrap_false_raw, C10_names_independent, and that every interleaving of any number of threads equals the serial execution in lock-acquisition order (C10_serialisable, C10_concurrent_refines; counterexample C10_unlocked_not_serialisable; finding C10-sample-outside-lock: with the raw sample taken outside every lock the calls need not go through _wn.lock in the order they read the kernel — counterexample C10_lock_order_is_not_sampling_order, 100/105/110 reported as 105/205/215, forced on two real threads; the full concurrent statement C10_concurrent_Full — lock order of the calls = sampling order, each nowrap=True call returns `expected` over exactly the snapshots sampled before its own — is proved for every configuration that samples under the front ends' lock (C10_concurrent_full_strength, instantiated as C10_concurrent_full_strength_fixed for the current source with fixes/C10-sample-under-lock; obligation cfg_sample_under_lock to be switched on when the fix has landed). The sampling lock is also modelled as an OBJECT (Model/C10Lock: a caller evaluates the expression after `with` — a table lookup that may miss followed by the creation and storing of a fresh lock under the lazy policy —, acquires that object, reads the kernel, goes through wrap_numbers, releases it; any number of threads, thread switches between any two of these steps): whatever the policy two threads are never inside sections guarded by the same object (C10_lock_object_exclusive); with one lock object that exists before any call every interleaving is a run of the lock model with the sample under the lock (C10_static_lock_refines_sampling_lock), hence the concurrent clause at full strength over the lock-object model (C10_concurrent_lock_objects, instantiated for the current source as C10_concurrent_lock_objects_cfg through the obligation cfg_sampling_lock_static, fed by the translator fact samplingLockStatic: the `with` expression of both front ends is a module-level name bound once, at import time, to threading.Lock()); counterexample C10_lazy_lock_created_twice for a lock created by the caller on a missed lookup (two first calls at once: 100/105/110 reported as 205/105/215). The three dicts of _WrapNumbers are modelled as they are in the code and proved to refine the abstract model after every history (C10_concrete_refines: same return values, no KeyError/AssertionError), with the invariant reminder_keys = support of reminders stated separately (C10_reminder_keys_support; what-if counterexample C10_reminder_keys_overwrite_counterexample for a set that is assigned instead of added to) and the value of cache_info() characterised from the history alone (C10_cache_info_reflects). Proved counterexamples for the pre-fix front end (C10_reappear_needs_empty_feed) and for the two forms of disk_io_counters sharing one cache name on Linux (C10_forms_share_history_counterexample, kept for the shared-name configuration sharedCfg: the defect was fixed in /repo by a52899b); for the repaired front end the full statement is proved (C10_present_monotone: after any history, any listings, any number of system-wide calls in between, a disk that stays listed never goes backwards between two perdisk=True calls; instantiated as C10_present_monotone_cfg through the obligation cfg_forms_good). The model is tied to the code by 26 translator facts (empty-snapshot handling, cache names per form, names cleared, wrap comparison, Linux perdisk filter, run/cache_clear/cache_info under the lock, reminder_keys only ever added to, raw sample + wrap_numbers under one front-end lock) feeding cfg_good / cfg_good_conc / cfg_forms_good / cfg_good_dict, and by a differential run of the real front-end functions against model and specification on generated and exhaustively enumerated histories (return values after every step, cache_info() against the concrete-dict model and against the history-defined specification), including 2-3 real threads whose observed schedule is replayed through the Lean lock model, and a model-independent bounded-pre-emption exploration from a COLD process (harness/props/c10_preempt.py: import-time state of the package restored before every schedule, every lock psutil creates made cooperative, thread switches at every line of the front ends — all schedules with at most two pre-emptions of the first two calls of a process, samples of the others — judged by the history-defined specification over the order in which the calls read the kernel).",
     "level_note": "Trusted: Lean kernel + {propext, Classical.choice, Quot.sound}; the translator; the correspondence harness; the aliasing of the dicts cache_info() returns is not modelled (its value at call time is); uniform tuple width and unique device names per snapshot are hypotheses (true of every platform layer's output); whether the raw sample is taken under a lock is a translator fact (finding C10-sample-outside-lock while it is not).",
     "technique": "Lean 4 refinement proof by induction over histories (invariant of _WrapNumbers) + data refinement from the concrete dicts to the abstract state + small-step lock model with serialisability invariant + translator-fed proof obligations + differential correspondence with exhaustive short histories and replayed real-thread schedules",
     "design_ref": "DESIGN.md §5 C10",
@@ -284,6 +286,38 @@ def _sample_under_lock_fn(init, fname):
                             ok_calls.append(c)
                             used.append(extract.dotted(w.items[0].context_expr))
     return len(ok_calls) == len(wraps), sorted(set(used))
+
+
+def _sampling_lock_static(init):
+    """TOTAL: in both front ends every `_wrap_numbers` call sits inside a `with X:` where X is a plain NAME that the
+    module binds exactly once, at top level, to `threading.Lock()`: no other assignment / deletion / `global` /
+    `nonlocal` declaration / parameter of that name anywhere in the module. So the lock OBJECT exists before any call
+    and `X` always evaluates to it (policy `static` of Model/C10Lock). A call (`with _lock_for(name):`), a subscript
+    (`with _locks[name]:`), an attribute, a name that some function rebinds (lazy `global X; if X is None: X = Lock()`)
+    -> False (policy `lazy`: which object a caller takes is decided at call time)."""
+    def static(x):
+        tops = [st for st in init.body if isinstance(st, ast.Assign) and len(st.targets) == 1
+                and isinstance(st.targets[0], ast.Name) and st.targets[0].id == x
+                and extract.dotted(st.value) == "threading.Lock()"]
+        stores = [n for n in ast.walk(init) if isinstance(n, ast.Name) and n.id == x
+                  and isinstance(n.ctx, (ast.Store, ast.Del))]
+        decl = [n for n in ast.walk(init) if isinstance(n, (ast.Global, ast.Nonlocal)) and x in n.names]
+        args = [n for n in ast.walk(init) if isinstance(n, ast.arg) and n.arg == x]
+        imps = [n for n in ast.walk(init) if isinstance(n, (ast.Import, ast.ImportFrom))
+                and any((a.asname or a.name) == x for a in n.names)]
+        return len(tops) == 1 and len(stores) == 1 and not decl and not args and not imps
+    for fname in ("disk_io_counters", "net_io_counters"):
+        fn = extract.find_def(init, fname)
+        wraps = extract.calls_in(fn, "_wrap_numbers") + extract.calls_in(fn, "wrap_numbers")
+        if not wraps:
+            return False
+        withs = [w for w in ast.walk(fn) if isinstance(w, ast.With)]
+        for c in wraps:
+            encl = [w for w in withs if any(x is c for x in ast.walk(w))]
+            names = [it.context_expr.id for w in encl for it in w.items if isinstance(it.context_expr, ast.Name)]
+            if not any(static(x) for x in names):
+                return False
+    return True
 
 
 # ------------------------------------------------------------------------------ closed world, whole bodies
@@ -552,6 +586,8 @@ def facts(snap, F):
     F.try_add("samplingLocks", "List String",
               lambda: extract.lean_list(sul("disk_io_counters")[1] + sul("net_io_counters")[1], extract.lean_str),
               "the lock objects the two front ends sample under (one shared lock = one sampling order over both functions)")
+    F.try_add("samplingLockStatic", "Bool", lambda: extract.lean_bool(_sampling_lock_static(init)),
+              "the lock both front ends sample under is named by a plain module-level name bound ONCE, at import time, to threading.Lock() (never rebound, no lookup / creation at call time)")
     F.try_add("rkAccumulates", "Bool", lambda: extract.lean_bool(_rk_accumulates(common)),
               "the only statement of run() touching reminder_keys is `self.reminder_keys[name][key].add(remkey)` next to `self.reminders[name][remkey] += old_value`, remkey = (key, i)")
 
@@ -1195,7 +1231,7 @@ def corpus_histories(w):
     ]
 
 
-def correspond(ctx, res):
+def correspond(ctx, res, preempt=True):
     # regression of C10-forms-share-cache through the REAL Linux platform layer (before the platform functions
     # are replaced by scripted ones)
     wit = {"id": FINDING_FORMS, "witness": {"calls": [[100, True], [10, True], [11, False], [12, True]]}}
@@ -1211,8 +1247,10 @@ def correspond(ctx, res):
         res.rule = ("histories of public calls (both functions, per-device and system-wide form, nowrap True/False) "
                     "and cache_clears from 14 clause-directed families (PRNG from VERIF_SEED) plus an exhaustive "
                     "sweep of all short histories over one device, plus real threads replayed through the Lean "
-                    "lock model; non-trivial = the history contains a wrap, a vanish/reappear, an empty snapshot "
-                    "or a cache_clear; distinct = distinct op sequences")
+                    "lock model, plus pre-emption schedules of 2-3 threads from a cold process (c10_preempt: every "
+                    "two-pre-emption schedule of the first two calls, samples of the other programs); non-trivial = "
+                    "the history contains a wrap, a vanish/reappear, an empty snapshot or a cache_clear, or the "
+                    "schedule hands the baton over at least once; distinct = distinct op sequences / plans")
         hists, tags = [], []
         for h in corpus_histories(impl.width):
             hists.append(h)
@@ -1267,6 +1305,10 @@ def correspond(ctx, res):
         alias_first_call(ctx, impl, res)
     finally:
         impl.close()
+    # cold process, every lock psutil creates made cooperative, thread switches at every line of the front ends
+    # (model-independent; see c10_preempt.py)
+    if preempt:
+        res.extra["preempt_schedules"] = c10_preempt.explore(ctx, res)
 
 
 CONC_TARGETS = (("net", True), ("net", False), ("disk", True), ("disk", False))
@@ -1722,7 +1764,13 @@ def hold_release(ctx, impl, res, fn="net", perdev=True):
 
 
 def search(ctx, res, broken):
-    correspond(ctx, res)
+    # the pre-emption explorer first, at full depth (every line of every function of the package is a scheduling
+    # point, every bytecode of psutil/__init__.py for the cold programs): a concurrency defect has no sequential
+    # failing input, so when it finds a schedule the 10x sequential search is not needed
+    res.extra["preempt_schedules"] = c10_preempt.explore(ctx, res, search=True)
+    if any(d["kind"] == "spec" for d in res.disagreements):
+        return
+    correspond(ctx, res, preempt=False)
 
 
 def _fails(ctx, impl, hist):
@@ -1777,6 +1825,8 @@ def runner_result():
 
 
 def replay(ctx, rp, res):
+    if rp["input"].get("scenario") == "preempt":
+        return c10_preempt.replay(ctx, rp)
     if rp["input"].get("scenario") in ("overtake", "hold_release"):
         return _scenario_fails(ctx, rp["input"]["scenario"], rp["input"].get("fn", "net"),
                                rp["input"].get("perdev", True))
